@@ -74,7 +74,7 @@ const prelude = `(set-option :produce-models true)
 (declare-datatypes ((Pay 0)) (((pay_ptr (pay_p Ptr)) (pay_int (pay_i Int)) (pay_str (pay_s Str)) (pay_bool (pay_b Bool)) (pay_opq (pay_o Int)))))
 (declare-datatypes ((Iface 0)) (((inil) (ibox (itag Int) (ipay Pay)))))
 (declare-fun strlen (Str) Int)
-(declare-fun concat (Str Str) Str)
+(declare-fun str_cat (Str Str) Str)
 (declare-const str_empty Str)
 (declare-const fn_nil Fn)
 (declare-const float_zero Float)
@@ -82,7 +82,7 @@ const prelude = `(set-option :produce-models true)
 (declare-fun arrid (Ptr) Int)
 (declare-fun str_lt (Str Str) Bool)
 (declare-fun str_at (Str Int) Int)
-(declare-fun substr (Str Int Int) Str)
+(declare-fun str_sub (Str Int Int) Str)
 (declare-fun errors_is (Iface Iface) Bool)
 (assert (= (strlen str_empty) 0))
 (define-fun oldptr ((p Ptr)) Bool (not (and ((_ is pobj) p) (< (pobj_id p) 0))))
@@ -407,7 +407,7 @@ func (vc *VC) closing() string {
 		for _, a := range lits {
 			for _, c := range lits {
 				if r, ok := vc.strLits[a+c]; ok {
-					fmt.Fprintf(&b, "(assert (= (concat %s %s) %s))\n", vc.strLits[a], vc.strLits[c], r)
+					fmt.Fprintf(&b, "(assert (= (str_cat %s %s) %s))\n", vc.strLits[a], vc.strLits[c], r)
 				}
 			}
 		}
@@ -415,11 +415,21 @@ func (vc *VC) closing() string {
 	return b.String()
 }
 
+const qMark = ";Q;"
+
+// quantified wraps a quantified assumption in a named atom whose definition can be left out.
+func (vc *VC) quantified(formula string) string {
+	n := vc.fresh("qa")
+	vc.decl(fmt.Sprintf("(declare-const %s Bool)", n))
+	vc.decl(qMark + fmt.Sprintf("(assert (= %s %s))", n, formula))
+	return n
+}
+
 const preludeAxioms = `(assert (forall ((s Str)) (! (>= (strlen s) 0) :pattern ((strlen s)))))
-(assert (forall ((a Str) (b Str)) (! (= (strlen (concat a b)) (+ (strlen a) (strlen b))) :pattern ((concat a b)))))
+(assert (forall ((a Str) (b Str)) (! (= (strlen (str_cat a b)) (+ (strlen a) (strlen b))) :pattern ((str_cat a b)))))
 (assert (forall ((s Str)) (! (=> (= (strlen s) 0) (= s str_empty)) :pattern ((strlen s)))))
-(assert (forall ((a Str)) (! (= (concat a str_empty) a) :pattern ((concat a str_empty)))))
-(assert (forall ((a Str)) (! (= (concat str_empty a) a) :pattern ((concat str_empty a)))))
+(assert (forall ((a Str)) (! (= (str_cat a str_empty) a) :pattern ((str_cat a str_empty)))))
+(assert (forall ((a Str)) (! (= (str_cat str_empty a) a) :pattern ((str_cat str_empty a)))))
 (assert (forall ((a Str) (b Str)) (! (=> (str_lt a b) (not (str_lt b a))) :pattern ((str_lt a b)))))
 (assert (forall ((a Str) (b Str)) (! (or (str_lt a b) (str_lt b a) (= a b)) :pattern ((str_lt a b)))))
 (assert (forall ((a Str) (b Str) (c Str)) (! (=> (and (str_lt a b) (str_lt b c)) (str_lt a c)) :pattern ((str_lt a b) (str_lt b c)))))
@@ -432,10 +442,17 @@ func (vc *VC) script(o *Obl) string {
 	b.WriteString(prelude)
 	if !o.MustSat && !o.NoAxioms {
 		b.WriteString(preludeAxioms)
-	} else {
+	} else if !o.MustSat {
 		b.WriteString("(assert (forall ((s Str)) (! (>= (strlen s) 0) :pattern ((strlen s)))))\n")
 	}
 	for _, d := range vc.decls {
+		if strings.HasPrefix(d, qMark) {
+			// definition of a quantified assumption: left out of vacuity probes (the atom stays free)
+			if o.MustSat {
+				continue
+			}
+			d = d[len(qMark):]
+		}
 		b.WriteString(d)
 		b.WriteByte('\n')
 	}
